@@ -240,6 +240,13 @@ LookupFun(x) == LET hits == {j \in DOMAIN scopes : HasFun(scopes[j], x)} IN
                 IF hits = {} THEN <<>> ELSE <<FunIn(scopes[CHOOSE j \in hits : \A h \in hits : h <= j], x)>>
 
 TopScope == scopes[Len(scopes)]
+\* ---- C05, Java: a local variable used inside a lambda or a nested function (printed as a lambda) must be effectively final
+CaptureIdx == LET cs == {j \in DOMAIN scopes : scopes[j].kind \in {"Lambda", "LocalFun"}} IN
+              IF cs = {} THEN 0 ELSE CHOOSE j \in cs : \A h \in cs : h <= j
+VarIdx(x) == LET hits == {j \in DOMAIN scopes : HasVar(scopes[j], x)} IN IF hits = {} THEN 0 ELSE CHOOSE j \in hits : \A h \in hits : h <= j
+AssignedNames == {Ev[j].name : j \in {q \in DOMAIN Ev : Ev[q].ev = "Assign" /\ ~Ev[q].recv}}
+CapturedLocal(x) == LET j == VarIdx(x) IN P.lang = "java" /\ j > 0 /\ j < CaptureIdx /\ scopes[j].kind \notin {"Global", "Class"}
+ChkCapture(x, r) == IF r # <<>> /\ CapturedLocal(x) /\ ~r[1].final /\ x \in AssignedNames THEN {<<p, i, "CaptureFinal", x, Bot, Bot>>} ELSE {}
 \* ---- C05: type variables in scope, fresh identifiers, reserved words
 TVarsInScope == UNION {scopes[j].tv : j \in DOMAIN scopes}
 RECURSIVE FreeTV(_)
@@ -321,7 +328,7 @@ Step ==
      CASE e.ev = "Enter" ->
             /\ scopes' = Append(scopes,
                  IF e.kind = "Class" THEN [NewScope("Class", e.name) EXCEPT !.tv = {e.tps[j].n : j \in DOMAIN e.tps}]
-                 ELSE IF e.kind = "Fun" THEN [NewScope("Fun", "") EXCEPT !.tv = {e.tps[j].n : j \in DOMAIN e.tps}]
+                 ELSE IF e.kind = "Fun" THEN [NewScope(IF "owner" \in DOMAIN e /\ e.owner = "local" THEN "LocalFun" ELSE "Fun", "") EXCEPT !.tv = {e.tps[j].n : j \in DOMAIN e.tps}]
                  ELSE IF e.kind = "True" /\ e.name # "" THEN [NewScope("True", "") EXCEPT !.vs = (e.name :> [t |-> e.t[1], final |-> TRUE, wide |-> Bot])]
                  ELSE NewScope(e.kind, ""))
             /\ ts' = IF e.kind \in {"Fun", "Lambda", "Block"} THEN Push(ts, Mark) ELSE ts
@@ -373,7 +380,7 @@ Step ==
             LET r == LookupVar(e.name) IN
             /\ UNCHANGED scopes
             /\ ts' = Push(ts, IF r = <<>> THEN Bot ELSE r[1].t)
-            /\ viol' = viol \cup Chk(r # <<>>, "Resolved.Var", e.name)
+            /\ viol' = viol \cup Chk(r # <<>>, "Resolved.Var", e.name) \cup ChkCapture(e.name, r)
        [] e.ev = "Is" -> /\ UNCHANGED <<scopes, viol>> /\ ts' = Push(Pop(1), BoolT)
        [] e.ev = "BinOp" -> /\ UNCHANGED <<scopes, viol>> /\ ts' = Push(Pop(2), BoolT)
        [] e.ev = "Cond" ->
@@ -462,6 +469,7 @@ Step ==
             /\ UNCHANGED scopes
             /\ ts' = Push(Pop(1 + nrecv), UnitT)
             /\ viol' = viol \cup Chk(r # <<>> \/ (e.recv /\ Peek(1).k = "N"), "Resolved.AssignTarget", e.name)
+                            \cup (IF ~e.recv /\ r # <<>> /\ CapturedLocal(e.name) THEN {<<p, i, "CaptureFinal", e.name, Bot, Bot>>} ELSE {})
                             \cup (IF r # <<>> THEN Chk(~r[1].final, "AssignTargetNonFinal", e.name)
                                                    \cup ChkA(Peek(0), r[1].t,
                                                             \* known-finding shape: the target's type was erased and inferred narrower than declared,
